@@ -954,6 +954,70 @@ fn cases_fake(jobs: &[FakeJob], alone: bool, acc: &mut Acc) {
     }
 }
 
+/// Order sweep on fake hardware: a brand-new thread pins to the processors `order` of instance 0,
+/// handed to `take_exact` in exactly this order (the other families build their sets with
+/// `filter()`, which keeps the inventory's order - grouped by memory region), then the library's
+/// view is judged like after any other pin. Catches bookkeeping that depends on where in the set a
+/// processor stands (e.g. "same region" decided from the two ends of the set).
+fn case_fake_order(ft: &FakeTopo, order: &[u32], acc: &mut Acc) {
+    acc.evaluations += 1;
+    acc.hashes.push(vcommon::hash_str(&format!("fake_order|{:?}|{:?}|{order:?}", ft.ids, ft.regions[0])));
+    let hw = ft.build(0);
+    let topo = ft.topo(0);
+    let order_v = order.to_vec();
+    let hw2 = hw.clone();
+    let res = std::thread::spawn(move || {
+        std::panic::catch_unwind(std::panic::AssertUnwindSafe(|| {
+            let all = hw2.all_processors();
+            let mut ne = all.processors().clone();
+            let procs: Vec<_> = order_v.iter().map(|id| all.processors().iter().find(|p| p.id() == *id).expect("HARNESS: id in inventory").clone()).collect();
+            ne.head = procs[0].clone();
+            ne.tail = procs[1..].to_vec();
+            let set = all.to_builder().take_exact(ne);
+            let got: Vec<u32> = set.processors().iter().map(|p| p.id()).collect();
+            assert_eq!(got, order_v, "HARNESS: take_exact() did not keep the requested order");
+            set.pin_current_thread_to();
+            LibView::take(&hw2)
+        }))
+    })
+    .join()
+    .expect("HARNESS: order-sweep thread");
+    let mut sorted = order.to_vec();
+    sorted.sort_unstable();
+    let replay = json!({"part": "fake_order", "ids": ft.ids, "regions0": ft.regions[0], "regions1": ft.regions[1], "order": order});
+    match res {
+        Ok(view) => {
+            let mut bad = Vec::new();
+            let tp = judge(&topo, Some(&sorted), &topo.ids(), &view, &mut bad);
+            acc.outcome(&format!("fake_order:{tp}"));
+            acc.count("fake_order_views_judged", 1);
+            for (field, detail) in bad {
+                acc.violation(format!("fake_order/{field}"), format!("topology {}, brand-new thread pinned to take_exact({order:?}): {field}: {detail}", ft.json()), replay.clone());
+            }
+        }
+        Err(p) => acc.violation("fake_order/panic".to_string(), format!("take_exact({order:?}) + pin on {}: {}", ft.json(), vcommon::panic_message(&*p)), replay),
+    }
+}
+
+/// Every ordered selection (permutation of every subset with at least two members) of `ids`.
+fn ordered_selections(ids: &[u32]) -> Vec<Vec<u32>> {
+    fn rec(ids: &[u32], cur: &mut Vec<u32>, out: &mut Vec<Vec<u32>>) {
+        if cur.len() >= 2 {
+            out.push(cur.clone());
+        }
+        for id in ids {
+            if !cur.contains(id) {
+                cur.push(*id);
+                rec(ids, cur, out);
+                cur.pop();
+            }
+        }
+    }
+    let mut out = Vec::new();
+    rec(ids, &mut Vec::new(), &mut out);
+    out
+}
+
 /// One block of the fake enumeration: every sequence of exactly `len` steps on one topology.
 struct FakeBlock {
     ft: FakeTopo,
@@ -1029,6 +1093,10 @@ fn replay(real: &Real, path: &str) -> ! {
                 .map(|a| a.iter().map(|s| (s[0].as_u64().unwrap_or(0) as usize, s[1].as_u64().unwrap_or(0) as usize, u32s(&s[2]))).collect())
                 .unwrap_or_default();
             cases_fake(&[FakeJob { ft, steps, initial: true }], true, &mut acc);
+        }
+        "fake_order" => {
+            let ft = FakeTopo { ids: u32s(&r["ids"]), regions: [u32s(&r["regions0"]), u32s(&r["regions1"])] };
+            case_fake_order(&ft, &u32s(&r["order"]), &mut acc);
         }
         other => {
             println!("ENGINE-FAILURE property=C10 unknown replay part {other:?}");
@@ -1131,6 +1199,13 @@ fn main() {
     };
     let (blocks, fake_total) = fake_blocks(thorough);
     let batches = fake_total.div_ceil(HISTORIES_PER_PAIR);
+    // Order sweep: every distinct fake topology x every ordered selection of >= 2 of its processors.
+    let mut seen_topos = BTreeSet::new();
+    let order_cases: Vec<(FakeTopo, Vec<u32>)> = blocks
+        .iter()
+        .filter(|b| seen_topos.insert((b.ft.ids.clone(), b.ft.regions[0].clone())))
+        .flat_map(|b| ordered_selections(&b.ft.ids).into_iter().map(|o| (b.ft.clone(), o)))
+        .collect();
 
     let families: Vec<Family> = std::thread::scope(|scope| {
         // ---- PART 2 (own thread; its workers never touch the real platform) ------------------
@@ -1164,6 +1239,8 @@ fn main() {
             run("spawn_threads", spawn_masks.len(), os_workers, 4, &|i, acc| case_spawn_threads(&real, &real.ids_of(spawn_masks[i]), acc)),
         ];
         out.push(part2.join().expect("HARNESS: PART 2 driver"));
+        // ---- PART 2b: order sweep (after PART 2 so that it does not compete for its workers) --
+        out.push(run("fake_order", order_cases.len(), jobs, 16, &|i, acc| case_fake_order(&order_cases[i].0, &order_cases[i].1, acc)));
         out
     });
     let mut total = Acc::default();
